@@ -282,7 +282,7 @@ func runC12(c *Ctx) error {
 		}
 		F, R := toU16s(r["F"]), toU16s(r["R"])
 		checkPath(c, F, R, false)
-		return nil
+		return c12SwitchTraversal(c, F, R)
 	}
 	// exhaustive over class representatives
 	maxExh := c.Pick(3, 4) // forward/return label count (hops = count+1)
@@ -393,6 +393,26 @@ func runC12(c *Ctx) error {
 		}
 		checkPath(c, F, R, i%4 == 0)
 		c.Count("boundary-255-family")
+	}
+	// the same traversals through chains of real switches
+	for i, n := 0, c.Pick(40, 300); i < n; i++ {
+		k := 1 + c.Rng.IntN(5)
+		if i%10 == 0 {
+			k = 6 + c.Rng.IntN(20)
+		}
+		F, R := make([]uint16, k), make([]uint16, k)
+		for j := 0; j < k; j++ {
+			F[j], R[j] = randLabel(), randLabel()
+			if c.Rng.IntN(3) == 0 {
+				F[j] = labelReps[c.Rng.IntN(len(labelReps))]
+			}
+			if c.Rng.IntN(3) == 0 {
+				R[j] = labelReps[c.Rng.IntN(len(labelReps))]
+			}
+		}
+		if err := c12SwitchTraversal(c, F, R); err != nil {
+			return err
+		}
 	}
 	// invalid paths: non-zero ends, zero inner labels; any outcome but a panic, same as the model
 	c.CoqSetup("Prelude SeqCorr SwitchLabel SwitchLabelCorr", "c12_bcase", "c12_bok")
